@@ -242,6 +242,27 @@ static void wl_parse_split_token(struct ctx *c)
 	if (!o && e == json_tokener_error_memory) c->failed = 1; else { ob_printf(&c->res, "err=%d ", (int)e); res_obj(c, o); }
 	json_object_put(o); json_tokener_free(tok); free(d.b);
 }
+/* a tokener that has just handled one very long token (its scratch buffer is big now) is reset and used again, the reset and the second parse under the fault:
+ * whatever the reset does with that buffer, the tokener stays usable or the parse reports out-of-memory.  param = token length */
+static void wl_reset_after_big_token(struct ctx *c)
+{
+	size_t n = (size_t)c->param, i; struct obuf d = {0}; struct json_tokener *tok = json_tokener_new(); struct json_object *o; enum json_tokener_error e;
+	static const char small[] = "{\"k\":[1,\"a token of about forty bytes..............\",2.5]} ";
+	ob_puts(&d, "[\""); for (i = 0; i < n; i++) ob_putc(&d, (char)('a' + i % 26)); ob_puts(&d, "\"]");
+	o = json_tokener_parse_ex(tok, d.b, (int)d.n + 1); json_object_put(o);
+	ARM(c);
+	json_tokener_reset(tok);
+	o = json_tokener_parse_ex(tok, small, (int)sizeof small - 1);
+	DISARM(c);
+	e = json_tokener_get_error(tok);
+	if (!o && e == json_tokener_error_memory) c->failed = 1; else { ob_printf(&c->res, "err=%d ", (int)e); res_obj(c, o); }
+	json_object_put(o);
+	/* and once more, unarmed: a tokener that survived the fault must be as good as new */
+	json_tokener_reset(tok);
+	o = json_tokener_parse_ex(tok, small, (int)sizeof small - 1);
+	if (!o) bad(c, "parser-not-reusable-after-failure");
+	json_object_put(o); json_tokener_free(tok); free(d.b);
+}
 static void wl_set_string(struct ctx *c)
 {
 	struct json_object *s = json_object_new_string(c->param & 1 ? "short" : "a somewhat longer initial string value"); char big[300]; int rc; size_t n = c->param < 2 ? 100 : 250;
@@ -584,6 +605,7 @@ static void build_table(void)
 	{ static const int ms[] = {0, 9, 10, 11, 12, 21, 22, 23, 43, 44}; int j; for (i = 0; i < 10; i++) for (j = 0; j < 2; j++) addw("pointer_grow", wl_pointer_grow, ms[i] * 2 + j, j ? "patch" : "pointer"); }
 	for (i = 0; i < 48 * 24; i++) addw("serialize_boundary", wl_serialize_boundary, i, "serialize");
 	{ int k, L; for (k = 0; k < 6; k++) for (L = 1; L <= 140; L += (L >= 24 && L < 40) || (L >= 60 && L < 68) || (L >= 124 && L < 132) ? 1 : 11) addw("parse_split_token", wl_parse_split_token, k * 512 + L, "parse"); }
+	{ static const int ns[] = {100, 5000, 70000, 300000, 1200000, 5000000}; for (i = 0; i < 6; i++) addw("reset_after_big_token", wl_reset_after_big_token, ns[i], "parse"); }
 	{ static const int ds[] = {1, 3, 5, 7, 9, 1301, 3101, 6401, 1308, 106}; for (i = 0; i < 10; i++) addw("parse_chunked", wl_chunked_parse, ds[i], "parse"); }
 }
 
